@@ -321,3 +321,19 @@ def c10_unselected_cycle_range_member(w, v):
         v['sig'].endswith(':range-member') and \
         bool(w.get('member_of_range_read_inside_another_cycle')) and \
         w.get('observed') == '#CIRC!'
+
+
+@matcher('c11_incompatible_shapes_raise')
+def c11_incompatible_shapes_raise(w, v):
+    """An element-wise function given array arguments whose extents cannot be
+    broadcast (e.g. a 2x2 and a 1x3 array) raises BroadcastError instead of
+    returning #N/A beyond the common part."""
+    parts = v['sig'].split(':')
+    if parts[0] not in ('raised', 'lift') or 'BroadcastError' not in v['sig']:
+        return False
+    shapes = [tuple(s) for s in (w.get('array_shapes') or [])]
+    if len(shapes) < 2:
+        return False
+    rows = {s[0] for s in shapes if s[0] != 1}
+    cols = {s[1] for s in shapes if s[1] != 1}
+    return len(rows) > 1 or len(cols) > 1
